@@ -207,7 +207,7 @@ func oracleClient(st *step) *verdict {
 			if err != nil {
 				return nil
 			}
-			k := key(hash, sizeOf(size))
+			k := refKey(tag, hash, sizeOf(size))
 			if _, ok := st.casBefore[k]; !ok && !seen[tag+"/"+k] {
 				want = append(want, tag+"/"+k)
 			}
@@ -215,6 +215,45 @@ func oracleClient(st *step) *verdict {
 		}
 		if !strings.HasPrefix(st.reply, "ok") || !sameSet(want, strings.Fields(st.reply)[1:]) {
 			return &verdict{whatClientFM, fmt.Sprintf("want %v, reply %q", want, st.reply)}
+		}
+	}
+	return nil
+}
+
+// oracleACClient: the AC client and server back to back behave like a map keyed by digest
+// function, hash and size: Put stores the message under exactly the named key, Get returns
+// what is stored under it.
+func oracleACClient(st *step) *verdict {
+	f := strings.Fields(st.line)
+	k := refKey(f[1], f[2], sizeOf(f[3]))
+	changed := diffMaps(st.acBefore, st.acAfter)
+	switch f[0] {
+	case "cacput":
+		msg, _ := unhex(f[4])
+		want := map[string][]byte{}
+		for kk, v := range st.acBefore {
+			want[kk] = v
+		}
+		if st.faultPut == 0 {
+			want[k] = msg
+		}
+		if d := diffMaps(want, st.acAfter); len(d) != 0 {
+			return &verdict{whatACClient, fmt.Sprintf("Put under %s: reply %q, backend differs from the reference at %v", k, st.reply, d)}
+		}
+		if (st.reply == "ok") != (st.faultPut == 0) {
+			return &verdict{whatACClient, fmt.Sprintf("Put under %s: reply %q", k, st.reply)}
+		}
+	case "cacget":
+		if len(changed) != 0 {
+			return &verdict{whatCollateral, "AC client Get changed the backend"}
+		}
+		stored, present := st.acBefore[k]
+		good := present && st.faultGet == 0
+		if good != (st.reply == "ok "+hexs(stored)) || (!good && strings.HasPrefix(st.reply, "ok")) {
+			return &verdict{whatACClient, fmt.Sprintf("Get of %s (stored %x, present=%v): reply %q", k, stored, present, st.reply)}
+		}
+		if !present && st.faultGet == 0 && !strings.HasPrefix(st.reply, "err 5 ") {
+			return &verdict{whatACClient, fmt.Sprintf("Get of absent %s: reply %q", k, st.reply)}
 		}
 	}
 	return nil
@@ -259,6 +298,7 @@ func oracleAC(st *step, maxMsg int) *verdict {
 
 // oracle applies the property statement to every step of a run.
 func oracle(res *runResult, cs, maxMsg int) *verdict {
+	tornDown := false // an earlier stream of this case was aborted
 	for _, st := range res.steps {
 		if strings.HasPrefix(st.reply, "panic") {
 			return &verdict{whatPanic, st.line + " -> " + st.reply}
@@ -272,6 +312,11 @@ func oracle(res *runResult, cs, maxMsg int) *verdict {
 			v = oracleWrite(st)
 		case "read":
 			v = oracleRead(st, cs)
+			if v != nil && v.what == whatReadFailed && tornDown && strings.HasPrefix(strings.Fields(st.line)[1], "zstd") {
+				v.what = whatReadAfterAbort
+			}
+		case "cacput", "cacget":
+			v = oracleACClient(st)
 		case "bupd", "bread", "fmb":
 			v = oracleBatch(st, maxMsg)
 		case "cput", "cget", "cfm":
@@ -287,6 +332,21 @@ func oracle(res *runResult, cs, maxMsg int) *verdict {
 			v.detail = st.line + ": " + v.detail
 			return v
 		}
+		if aborted(st) {
+			tornDown = true
+		}
 	}
 	return nil
+}
+
+// aborted: the step's stream was torn down (Recv/Send error, failing medium) or ended in an error.
+func aborted(st *step) bool {
+	f := strings.Fields(st.line)
+	switch f[0] {
+	case "write":
+		return f[4] != "eof" || strings.HasPrefix(st.reply, "err")
+	case "read":
+		return f[6] != "0" || (st.streamPiece > 0 && st.streamFail >= 0) || strings.HasPrefix(st.reply, "err")
+	}
+	return false
 }
